@@ -10,5 +10,6 @@ int main(int argc, char **argv)
   c08::register_pos_shards();
   c08::register_grid_shards();
   c08::register_ops_shards();
+  c08::register_scale_shards();
   return vrt::run(argc, argv);
 }
